@@ -108,13 +108,14 @@ type VC struct {
 	ptrFieldIDs map[string]int
 	implIfaces  map[string]*types.Interface
 	thorough bool
+	headLock map[string]int
 }
 
 func newVC(p *Prog, rootKey string, loopMods map[string]map[string]bool) *VC {
 	vc := &VC{p: p, srt: newSorter(), declared: map[string]bool{}, svars: map[string]*SVar{},
 		oblNames: map[string]int{}, counters: map[string]int{}, strIDs: map[string]int{}, used: map[string]bool{},
 		loopMods: loopMods, modsOut: map[string]map[string]bool{}, rootKey: rootKey, typeTags: map[string]int{},
-		globalsTouched: map[string]bool{}, lateVars: map[string]bool{}, usedLib: map[string]bool{}, calledContracts: map[*ssa.Function]bool{}, ptrFieldIDs: map[string]int{}, implIfaces: map[string]*types.Interface{}}
+		globalsTouched: map[string]bool{}, lateVars: map[string]bool{}, usedLib: map[string]bool{}, calledContracts: map[*ssa.Function]bool{}, ptrFieldIDs: map[string]int{}, implIfaces: map[string]*types.Interface{}, headLock: map[string]int{}}
 	if vc.loopMods == nil {
 		vc.loopMods = map[string]map[string]bool{}
 	}
